@@ -119,6 +119,13 @@ class Gen:
             if r.random() < 0.4:          # the directory does not exist before the first build
                 for p in list(self.fs0):
                     if p == "d" or p.startswith("d/"): self.fs0[p] = dict(t="none", c="")
+        r4 = random.Random("msa/%s/%d" % (self.focus, self.seed))
+        if kind == "dir" and not nd.get("rootnode") and r4.random() < 0.35:
+            # a command that writes INTO the directory, ordered before its consumers by must-scan-after-paths
+            # (tests/BuildSystem/Build/directory-input-must-scan-after-paths.llbuild)
+            self.fs0["d/gen"] = dict(t="none", c=""); self.nodes["d/gen"] = node("file", "d/gen"); nd["msa"] = ["d/gen"]
+            desc["cmds"]["cw"] = cmd(ins=[r4.choice(self.sources)], outs=["d/gen"], tag="cw",
+                                     failif=r4.choice(self.markers) if r4.random() < 0.3 else ""); desc["order"].append("cw")
         self.trees.append((root, layout, filt))
         self.live = {p: e["t"] for p, e in self.fs0.items() if p.startswith("d/") and e["t"] != "none"}
         self.absent("od")
@@ -171,7 +178,7 @@ class Gen:
     # ------------------------------------------------------------------ description edits
     def edit_desc(self, desc):
         r = self.rng; d = copy.deepcopy(desc)
-        shells = [n for n, c in d["cmds"].items() if c["tool"] == "shell" and n not in ("mk", "mu")]     # (the in-place idiom keeps its shape)
+        shells = [n for n, c in d["cmds"].items() if c["tool"] == "shell" and n not in ("mk", "mu", "cw")]     # (the in-place idiom keeps its shape)
         kinds = ["tag", "extra", "env", "rewire", "remove", "flag", "signature", "depstyle", "boundary", "addinput", "restore", "argenv", "dupout", "argsplit"]
         k = r.choice(kinds)
         if self.focus == "C09" and r.random() < 0.5:      # prefer edits that change only a signature-relevant detail
